@@ -195,4 +195,171 @@ Proof.
     exists o'; (split; [exact G|]); (split; [exact C|]); [left; exact F | | right; split; [exact F | exact W]].
   exfalso. exact (stop_proposes_when_reached o b sp Hk Hsp Hb (NP_pending o Ka Hnp Hop) Hr W).
 Qed.
+
+(* ---------------------------------------------------------------------------------------------- *)
+(* limit orders: with unlimited liquidity, a bar whose range reaches the limit fills the whole pending amount *)
+Definition reaches_limit (o : order) (b : bar) (lp : Q) : Prop :=
+  match o_op o with Buy => b_low b <= lp | Sell => lp <= b_high b end.
+
+Lemma Z1 x : 0 < x -> Qzero x = false.
+Proof. intros Hx. unfold Qzero. destruct (Qeq_bool x 0) eqn:E; [apply Qeq_bool_iff in E; lra | reflexivity]. Qed.
+
+Lemma limit_proposes_when_reached o b lp :
+  o_kind o = KLimit lp -> 0 < lp -> bar_ok b -> 0 < pending o -> reaches_limit o b lp ->
+  exists price, 0 < price /\
+    balance_updates c None o b = Ok (Some (pending o * sign_of (o_op o), price * pending o * - sign_of (o_op o)), o_hit o).
+Proof.
+  intros Hk Hlp (Hlo & Hoh & _ & _ & Hpos) Hp Hr. unfold balance_updates. rewrite Hk. unfold limit_updates.
+  cbn [min_avail liq_avail]. rewrite (Z1 _ Hp). unfold reaches_limit in Hr.
+  assert (Hlt : Qltb 0 (pending o) = true) by (apply Qltb_intro; exact Hp).
+  destruct (o_op o) eqn:Eop.
+  - destruct (Qltb (b_open b) lp) eqn:E1.
+    + unfold slipped, price_impact. rewrite Hlt. cbn [rbind]. unfold mk_updates. rewrite (Z1 _ Hp). cbn [orb].
+      match goal with |- context [Qzero ?x] => assert (Hx : 0 < x) by (apply Qminq_pos; nra); rewrite (Z1 x Hx); exists x end.
+      split; [exact Hx | rewrite ?Eop; reflexivity].
+    + apply Qle_bool_iff in Hr. rewrite Hr. cbn [rbind]. unfold mk_updates. rewrite (Z1 _ Hp), (Z1 _ Hlp). cbn [orb].
+      exists lp. split; [exact Hlp | rewrite ?Eop; reflexivity].
+  - destruct (Qltb lp (b_open b)) eqn:E1.
+    + unfold slipped, price_impact. rewrite Hlt. cbn [rbind]. unfold mk_updates. rewrite (Z1 _ Hp). cbn [orb].
+      match goal with |- context [Qzero ?x] => assert (Hx : 0 < x) by (apply Qmaxq_pos; nra); rewrite (Z1 x Hx); exists x end.
+      split; [exact Hx | rewrite ?Eop; reflexivity].
+    + apply Qle_bool_iff in Hr. rewrite Hr. cbn [rbind]. unfold mk_updates. rewrite (Z1 _ Hp), (Z1 _ Hlp). cbn [orb].
+      exists lp. split; [exact Hlp | rewrite ?Eop; reflexivity].
+Qed.
+
+Theorem limit_order_filled_when_reached_funds_permitting s o p when b lp bp qp s' l' :
+  get_order s (o_id o) = Some o -> is_open o = true -> o_kind o = KLimit lp -> 0 < lp -> bar_ok b ->
+  get_pair_info c (o_pair o) = Ok (bp, qp) -> on_grid bp (o_amount o) -> on_grid bp (o_fb o) -> OW o -> 0 < pending o ->
+  reaches_limit o b lp ->
+  process_order c s None o p when b = Done s' l' ->
+  exists o', get_order s' (o_id o) = Some o' /\
+    ((is_open o' = false /\ filled o' == o_amount o) \/
+     (is_open o' = true /\ o_fb o' = o_fb o /\ (rounds_to_nothing None o b \/ refused_for_funds s o))).
+Proof.
+  intros Hg Hop Hk Hlp Hb Epi0 Ga Gf [Ow1 Ow2] Hp Hr H.
+  destruct (limit_proposes_when_reached o b lp Hk Hlp Hb Hp Hr) as (price & Hprice & Ebu).
+  unfold process_order in H. rewrite Ebu in H. cbn [lift obind] in H.
+  assert (Hl : (o_id o < length (s_orders s))%nat)
+    by (apply nth_error_Some; unfold get_order in Hg; rewrite Hg; discriminate).
+  set (o1 := with_hit o (o_hit o)) in *. set (s1 := put_order s o1) in *.
+  assert (Hl1 : (o_id o1 < length (s_orders s1))%nat) by (unfold s1; rewrite length_put; exact Hl).
+  assert (Hg1 : get_order s1 (o_id o) = Some o1) by (apply (get_put s o1); exact Hl).
+  change (o_pair o1) with (o_pair o) in H. rewrite Epi0 in H. cbn [lift obind] in H.
+  set (b0 := pending o * sign_of (o_op o)) in *. set (q0 := price * pending o * - sign_of (o_op o)) in *.
+  (* the proposed base amount is on the grid, so truncation leaves it alone *)
+  assert (Eabs : Qabsq (o_fb o) == o_fb o * sign_of (o_op o)) by (apply Qabsq_dir; exact Ow1).
+  assert (Eb0 : b0 == o_amount o * sign_of (o_op o) - o_fb o).
+  { unfold b0, pending, filled. rewrite Eabs. destruct (o_op o); cbn [sign_of]; ring. }
+  assert (Gb0 : on_grid bp b0).
+  { rewrite Eb0. apply on_grid_plus; [|apply on_grid_opp; exact Gf].
+    destruct (o_op o); cbn [sign_of].
+    - assert (E1 : o_amount o * 1 == o_amount o) by ring. rewrite E1. exact Ga.
+    - assert (E1 : o_amount o * -1 == - o_amount o) by ring. rewrite E1. apply on_grid_opp. exact Ga. }
+  (* the not-filled exit: a limit order stays as it is *)
+  assert (NF : forall s2, get_order s2 (o_id o) = Some o1 ->
+                obind (order_not_filled c s2 o1 when) (fun s _ => Done s None) = Done s' l' ->
+                (rounds_to_nothing None o b \/ refused_for_funds s o) ->
+                exists o', get_order s' (o_id o) = Some o' /\
+                  ((is_open o' = false /\ filled o' == o_amount o) \/
+                   (is_open o' = true /\ o_fb o' = o_fb o /\ (rounds_to_nothing None o b \/ refused_for_funds s o)))).
+  { intros s2 G2 X Why. unfold order_not_filled in X. change (o_kind o1) with (o_kind o) in X. rewrite Hk in X.
+    cbn [obind] in X. assert (Es : s2 = s') by (inversion X; reflexivity). subst s'.
+    exists o1. split; [exact G2|]. right. split; [exact Hop|]. split; [reflexivity | exact Why]. }
+  destruct (round_bu (bp, qp) (Some b0) (Some q0)) as [rb rq] eqn:Er.
+  assert (Why2 : rb = None \/ rq = None -> rounds_to_nothing None o b).
+  { intros Hn. exists (o_hit o), b0, q0, (bp, qp). split; [exact Ebu|]. split; [exact Epi0|]. rewrite Er. exact Hn. }
+  destruct rb as [bv|]; [|apply (NF s1 Hg1 H); left; apply Why2; left; reflexivity].
+  destruct rq as [qv|]; [|apply (NF s1 Hg1 H); left; apply Why2; right; reflexivity].
+  destruct (round_bu_some bp qp b0 q0 bv qv Er) as (Ebv & _ & _).
+  assert (Ebv2 : bv == b0) by (rewrite Ebv; apply qtrunc_of_grid; exact Gb0).
+  cbn [snd] in H.
+  destruct (calc_fee c qp o1 qv) as [fee|ef] eqn:Ef; cbn [lift obind] in H; [|discriminate H].
+  match type of H with (match update_balances c s1 o1 ?f with _ => _ end) = _ =>
+    pose proof (ko_update_balances (s_orders s1) c s1 o1 f eq_refl) as K2;
+    destruct (update_balances c s1 o1 f) as [s2 u2|s2 e2] eqn:Eu end; unfold ko, Ko in K2; cbn [sof] in K2.
+  - destruct (take_liquidity None (Qabsq bv)) as [l2|el] eqn:El; cbn [lift obind] in H; [|discriminate H].
+    set (o2 := add_fill o1 when bv qv (match fee with Some f => f | None => 0 end)) in *.
+    assert (Hl2 : (o_id o2 < length (s_orders s2))%nat) by (rewrite K2; exact Hl1).
+    assert (Efb2 : o_fb o2 == o_amount o * sign_of (o_op o)).
+    { unfold o2, add_fill. cbn [o_fb with_hit o1]. rewrite Qred_correct, Ebv2, Eb0. ring. }
+    assert (Eabs2 : Qabsq (o_fb o2) == o_amount o).
+    { rewrite (Qabsq_dir _ (o_op o)); rewrite Efb2; pose proof (sg_sq (o_op o)); unfold pending, filled in Hp; nra. }
+    assert (Hcl : is_open o2 = false).
+    { unfold o2, add_fill, is_open. cbn [o_state].
+      match goal with |- context [if ?cnd then _ else _] => destruct cnd eqn:Ec end; [reflexivity|].
+      exfalso. apply Qle_bool_false' in Ec. cbn [with_hit o1 o_amount o_fb] in Ec.
+      unfold o2, add_fill in Eabs2. cbn [o_fb with_hit o1] in Eabs2. lra. }
+    rewrite Hcl in H.
+    assert (Hg2 : get_order (put_order s2 o2) (o_id o2) = Some o2) by (apply get_put; exact Hl2).
+    destruct (order_closed c (put_order s2 o2) o2) as [s4 o4|s4 e4] eqn:Ec; cbn [obind] in H; [|discriminate H].
+    destruct (order_closed_state _ _ _ _ _ Hg2 Ec) as (o5 & Hg5 & Es5 & Ef5). inversion H; subst s'.
+    exists o5. split; [unfold get_order in *; rewrite orders_push; exact Hg5|].
+    left. split; [unfold is_open in *; rewrite Es5; exact Hcl | unfold filled; rewrite Ef5; exact Eabs2].
+  - destruct e2; try discriminate H. apply (NF s2); [unfold get_order in *; rewrite K2; exact Hg1 | exact H |].
+    right. match type of Eu with update_balances c s1 o1 ?f = _ => exists (o_hit o), f, s2 end. exact Eu.
+Qed.
 End Complete.
+
+(* ---------------------------------------------------------------------------------------------- *)
+(* the premise "something is pending" holds for every open order of every reachable state *)
+Section OpenPending.
+Variable c : cfg.
+
+Definition OPj (o : order) : Prop := is_open o = true -> Qabsq (o_fb o) < o_amount o.
+
+Lemma OPj_hit o h : OPj o -> OPj (with_hit o h).
+Proof. intros H. exact H. Qed.
+Lemma OPj_loans o ids : OPj o -> OPj (add_loans o ids).
+Proof. intros H. exact H. Qed.
+Lemma OPj_state o : OPj o -> OPj (with_state o SCanceled).
+Proof. intros _ H. cbn [with_state is_open o_state] in H. discriminate H. Qed.
+
+Lemma OPj_fresh o : fresh o -> accepted c o -> OPj o.
+Proof.
+  intros (_ & Eb & _ & _) (pi & Epi & Eva) _. unfold validate in Eva.
+  destruct (Qle_bool (o_amount o) 0) eqn:E0; [discriminate Eva|]. apply Qle_bool_false' in E0.
+  rewrite Eb. unfold Qabsq. cbn. exact E0.
+Qed.
+
+Lemma OPj_fill l o b when : fill_keeps OPj c l o b when.
+Proof.
+  intros hit pi bv0 qv0 bv qv fee _ _ _ _ _ Hop. unfold add_fill, is_open in Hop. cbn [o_state] in Hop.
+  match type of Hop with context [if ?cnd then _ else _] => destruct cnd eqn:Ec end; [discriminate Hop|].
+  apply Qle_bool_false' in Ec. unfold add_fill. cbn [o_fb o_amount with_hit] in *. exact Ec.
+Qed.
+
+Definition OI (s : st) : Prop := forall i o, nth_error (s_orders s) i = Some o -> OPj o.
+
+Lemma OI_step s o : cfg_ok c -> op_ok o -> WF s -> OI s -> OI (fst (step c s o)).
+Proof.
+  intros Hc Ho Hw Hi.
+  assert (S1 : ST (fun _ _ => True) OPj c s (fst (step c s o))).
+  { apply step_ST; try assumption.
+    - exact OPj_hit.
+    - exact OPj_state.
+    - exact OPj_loans.
+    - intros; exact I.
+    - intros p w b _ l x _ _ _. apply OPj_fill. }
+  destruct S1 as [Sa Sb]. intros i x Hx.
+  destruct (nth_error (s_orders s) i) as [o0|] eqn:E0.
+  - destruct (Sa i o0 E0) as (o1 & E1 & _ & _ & HJ). rewrite E1 in Hx. inversion Hx; subst o1. exact (HJ (Hi i o0 E0)).
+  - apply nth_error_None in E0. destruct (Sb i x Hx E0) as [Hf Ha]. exact (OPj_fresh x Hf Ha).
+Qed.
+
+Theorem run_OI ops : forall s, cfg_ok c -> ops_ok ops -> WF s -> OI s -> OI (run c s ops).
+Proof.
+  unfold run. induction ops as [|op r IH]; intros s Hc Ho Hw Hi; cbn [fold_left]; [exact Hi|].
+  inversion Ho as [|? ? Ho1 Hor]; subst.
+  apply IH; try assumption; [exact (proj1 (step_prims c s op Hc Ho1 Hw)) | apply OI_step; assumption].
+Qed.
+
+Theorem open_orders_have_something_pending initial ops i o :
+  cfg_ok c -> ops_ok ops ->
+  nth_error (s_orders (run c (init_st initial) ops)) i = Some o -> is_open o = true -> 0 < pending o.
+Proof.
+  intros Hc Ho Hn Hop.
+  assert (Hi : OI (init_st initial)) by (intros j x Hj; destruct j; discriminate Hj).
+  pose proof (run_OI ops (init_st initial) Hc Ho (WF_init initial) Hi i o Hn Hop) as H.
+  unfold pending, filled. lra.
+Qed.
+End OpenPending.
